@@ -13,7 +13,10 @@
 (*                 tensors are - nothing runs before parsing succeeds       *)
 (*  NeverComputed  an edit that makes the tensors contradict the            *)
 (*                 description (dimension changed, dimension added, tensor  *)
-(*                 removed / added) must be rejected: no value, no          *)
+(*                 removed / added), or that breaks a stated bracket rule   *)
+(*                 (a contracted axis in three inputs of dot, two bracketed *)
+(*                 axes for sort, a coordinate count that does not match    *)
+(*                 the bracketed target axes) must be rejected: no value, no*)
 (*                 CallOperationError (which would mean backend computation *)
 (*                 ran), one of the documented classes                      *)
 (***************************************************************************)
@@ -26,7 +29,9 @@ Spec == Init /\ [][Next]_tid
 
 Documented == {"SyntaxError", "RankError", "AxisSizeError", "SemanticError", "OperationNotSupportedError", "BackendResolutionError", "ValueError", "TypeError"}
 Values     == {"ok", "True", "False"}
-MustReject == {"dim_changed", "dim_added", "tensor_removed", "tensor_added"}
+MustReject == {"dim_changed", "dim_added", "tensor_removed", "tensor_added",
+               (* violations of an operation's stated bracket / axis rules *)
+               "dot_axis_in_three_inputs", "sort_with_two_brackets", "coordinate_count_mismatch"}
 
 NoInternal(r)    == r.outcome \in Documented \cup Values
 SyntaxFirst(r)   == ~Parse(r.toks).ok => r.outcome \in {"SyntaxError", "False"}
